@@ -1,1 +1,332 @@
-use vcommon::Args; use crate::Externs; pub fn main(_a: &Args, _e: &Externs) -> i32 { 2 }
+//! C17 — a recorded type name denotes the same type in generated code; table lookups ignore
+//! whitespace and accept short and fully qualified spellings.
+//!
+//! Phase 1: a generated program (linked with the real truc) records
+//! `HostTypeResolver::type_info::<T>().name` for every type T of a grammar, registers every T in a
+//! `StaticTypeResolver` and looks it up under several spellings. Phase 2: for every T the
+//! compiler decides whether `fn(T) -> <recorded name>` is inhabited by the identity.
+
+use std::collections::BTreeMap;
+
+use vcommon::{json, Args, Report, Tier, Violation};
+
+use crate::{rustc, Externs};
+
+#[derive(Clone, Debug)]
+enum Ty {
+    Base(usize),
+    Un(usize, Box<Ty>),
+    Bin(usize, Box<Ty>, Box<Ty>),
+}
+
+/// (short / source spelling, fully qualified spelling)
+const BASES: [(&str, &str); 12] = [
+    ("u8", "u8"),
+    ("u32", "u32"),
+    ("i64", "i64"),
+    ("f64", "f64"),
+    ("bool", "bool"),
+    ("char", "char"),
+    ("usize", "usize"),
+    ("()", "()"),
+    ("String", "alloc::string::String"),
+    ("usertypes::Plain", "usertypes::Plain"),
+    ("usertypes::inner::Deep", "usertypes::inner::Deep"),
+    ("Box<str>", "alloc::boxed::Box<str>"),
+];
+
+const UNARY: [(&str, &str); 10] = [
+    ("Box<{}>", "alloc::boxed::Box<{}>"),
+    ("Vec<{}>", "alloc::vec::Vec<{}>"),
+    ("Option<{}>", "core::option::Option<{}>"),
+    ("Result<{}, String>", "core::result::Result<{}, alloc::string::String>"),
+    ("Result<u8, {}>", "core::result::Result<u8, {}>"),
+    ("({},)", "({},)"),
+    ("({}, u8)", "({}, u8)"),
+    ("[{}; 3]", "[{}; 3]"),
+    ("Box<[{}]>", "alloc::boxed::Box<[{}]>"),
+    ("usertypes::Wrap<{}>", "usertypes::Wrap<{}>"),
+];
+
+const BINARY: [(&str, &str); 3] = [
+    ("Result<{}, {}>", "core::result::Result<{}, {}>"),
+    ("({}, {})", "({}, {})"),
+    ("usertypes::Pair<{}, {}>", "usertypes::Pair<{}, {}>"),
+];
+
+impl Ty {
+    /// `qualified(depth)` chooses the spelling of the node at that depth.
+    fn spell(&self, depth: usize, qualified: &dyn Fn(usize) -> bool) -> String {
+        let pick = |p: (&'static str, &'static str)| if qualified(depth) { p.1 } else { p.0 };
+        match self {
+            Ty::Base(b) => pick(BASES[*b]).to_owned(),
+            Ty::Un(c, t) => pick(UNARY[*c]).replacen("{}", &t.spell(depth + 1, qualified), 1),
+            Ty::Bin(c, a, b) => pick(BINARY[*c]).replacen("{}", &a.spell(depth + 1, qualified), 1).replacen("{}", &b.spell(depth + 1, qualified), 1),
+        }
+    }
+    fn depth(&self) -> usize {
+        match self {
+            Ty::Base(_) => 0,
+            Ty::Un(_, t) => 1 + t.depth(),
+            Ty::Bin(_, a, b) => 1 + a.depth().max(b.depth()),
+        }
+    }
+}
+
+fn unary_closure(bases: &[usize], depth: usize) -> Vec<Ty> {
+    let mut all: Vec<Ty> = bases.iter().map(|b| Ty::Base(*b)).collect();
+    let mut layer = all.clone();
+    for _ in 0..depth {
+        let mut next = vec![];
+        for t in &layer {
+            for c in 0..UNARY.len() {
+                next.push(Ty::Un(c, Box::new(t.clone())));
+            }
+        }
+        all.extend(next.iter().cloned());
+        layer = next;
+    }
+    all
+}
+
+fn grammar(tier: Tier) -> Vec<Ty> {
+    let all_bases: Vec<usize> = (0..BASES.len()).collect();
+    let mut v = unary_closure(&all_bases, 2);
+    let three = [0usize, 8, 9];
+    let inner = match tier {
+        Tier::Quick => unary_closure(&three, 0),
+        Tier::Thorough => unary_closure(&three, 1),
+    };
+    for c in 0..BINARY.len() {
+        for a in &inner {
+            for b in &inner {
+                v.push(Ty::Bin(c, Box::new(a.clone()), Box::new(b.clone())));
+            }
+        }
+    }
+    if tier == Tier::Thorough {
+        // depth 3 over four bases
+        for t in unary_closure(&[0, 8, 10, 7], 3) {
+            if t.depth() == 3 {
+                v.push(t);
+            }
+        }
+    }
+    // the same type can be derived twice (Result<u8, String>): keep one
+    let mut seen = std::collections::BTreeSet::new();
+    v.retain(|t| seen.insert(t.spell(0, &|_| false)));
+    v
+}
+
+const SPELLINGS: [&str; 7] = ["short", "qualified", "outer-qualified-inner-short", "outer-short-inner-qualified", "qualified-without-spaces", "qualified-with-extra-spaces", "short-with-extra-spaces"];
+
+fn spellings(t: &Ty) -> Vec<String> {
+    let short = t.spell(0, &|_| false);
+    let qual = t.spell(0, &|_| true);
+    let wide = |s: &str| s.replace('<', " < ").replace('>', " > ").replace(',', " ,  ").replace("::", " :: ");
+    vec![
+        short.clone(),
+        qual.clone(),
+        t.spell(0, &|d| d % 2 == 0),
+        t.spell(0, &|d| d % 2 == 1),
+        qual.replace(' ', ""),
+        wide(&qual),
+        wide(&short),
+    ]
+}
+
+const PHASE1_HEAD: &str = r#"
+use truc::record::type_resolver::{HostTypeResolver, StaticTypeResolver, TypeResolver};
+use std::panic::{catch_unwind, AssertUnwindSafe};
+
+struct Ctx { table: StaticTypeResolver, pending: Vec<(usize, String, usize, usize, Vec<String>)> }
+
+fn probe<T>(ctx: &mut Ctx, idx: usize, spellings: &[&str]) {
+    let host = HostTypeResolver.type_info::<T>();
+    let reg = catch_unwind(AssertUnwindSafe(|| ctx.table.add_type::<T>()));
+    println!("N\t{}\t{}\t{}", idx, host.name, if reg.is_ok() { "registered" } else { "collision" });
+    let typed = catch_unwind(AssertUnwindSafe(|| ctx.table.type_info::<T>()));
+    match typed {
+        Ok(t) if t == host && t.size == std::mem::size_of::<T>() && t.align == std::mem::align_of::<T>() => {}
+        Ok(t) => println!("L\t{}\ttyped\tdiffers: {:?} vs {:?}", idx, t, host),
+        Err(_) => println!("L\t{}\ttyped\tnot found", idx),
+    }
+    let mut sp: Vec<String> = spellings.iter().map(|s| s.to_string()).collect();
+    sp.push(std::any::type_name::<T>().to_owned());
+    ctx.pending.push((idx, host.name, std::mem::size_of::<T>(), std::mem::align_of::<T>(), sp));
+}
+
+fn main() {
+    std::panic::set_hook(Box::new(|_| {}));
+    let mut ctx = Ctx { table: StaticTypeResolver::new(), pending: vec![] };
+    fill(&mut ctx);
+    let pending = std::mem::take(&mut ctx.pending);
+    for (idx, name, size, align, sp) in pending {
+        for (k, s) in sp.iter().enumerate() {
+            match catch_unwind(AssertUnwindSafe(|| ctx.table.dynamic_type_info(s))) {
+                Ok(d) => {
+                    if d.info.name != name || d.info.size != size || d.info.align != align {
+                        println!("L\t{}\t{}\tanswers {:?} for spelling {:?}, registered ({}, {}, {})", idx, k, d.info, s, name, size, align);
+                    } else {
+                        println!("K\t{}\t{}", idx, k);
+                    }
+                }
+                Err(_) => println!("L\t{}\t{}\tspelling {:?} is not found", idx, k, s),
+            }
+        }
+    }
+}
+"#;
+
+pub fn main(args: &Args, ext: &Externs) -> i32 {
+    let t0 = std::time::Instant::now();
+    let types = grammar(args.tier);
+    let dir = crate::work_dir("C17");
+    let n = types.len();
+    let shards = 16usize.min(n.max(1));
+    // ---- phase 1
+    let outputs = crate::parallel(shards, |s| {
+        let mut src = String::from(PHASE1_HEAD);
+        src.push_str("fn fill(ctx: &mut Ctx) {\n");
+        for (i, t) in types.iter().enumerate() {
+            if i % shards != s {
+                continue;
+            }
+            let sp = spellings(t);
+            src.push_str(&format!("    probe::<{}>(ctx, {}, &[{}]);\n", t.spell(0, &|_| false), i, sp.iter().map(|x| format!("{:?}", x)).collect::<Vec<_>>().join(", ")));
+        }
+        src.push_str("}\n");
+        let path = dir.join(format!("phase1_{}.rs", s));
+        std::fs::write(&path, src).unwrap();
+        let bin = dir.join(format!("phase1_{}", s));
+        let r = rustc(ext, &path, &["truc", "usertypes"], Some(&bin));
+        if !r.ok {
+            return Err(format!("phase-1 program does not compile: {}", r.stderr.lines().filter(|l| l.starts_with("error")).take(3).collect::<Vec<_>>().join(" | ")));
+        }
+        let out = std::process::Command::new(&bin).output().map_err(|e| e.to_string())?;
+        let _ = std::fs::remove_file(&bin);
+        let _ = std::fs::remove_file(&path);
+        if !out.status.success() {
+            return Err(format!("phase-1 program failed: {}", String::from_utf8_lossy(&out.stderr)));
+        }
+        Ok(String::from_utf8_lossy(&out.stdout).to_string())
+    });
+    let mut recorded: BTreeMap<usize, String> = BTreeMap::new();
+    let mut report = Report::new("probes", args, "exploration");
+    report.start = t0;
+    let mut lookups_ok = 0u64;
+    let mut lookups_bad = 0u64;
+    let case = |i: usize| json!({"space": "c17-probe", "type": types[i].spell(0, &|_| false), "index": i});
+    for o in outputs {
+        let text = match o {
+            Ok(t) => t,
+            Err(e) => vcommon::machinery_error(&e),
+        };
+        for line in text.lines() {
+            let f: Vec<&str> = line.split('\t').collect();
+            match f[0] {
+                "N" => {
+                    let i: usize = f[1].parse().unwrap();
+                    recorded.insert(i, f[2].to_owned());
+                    if f[3] == "collision" {
+                        report.add(Violation::new("C17/name-collision", format!("type {} is recorded as {:?}, a name another registered type already has", types[i].spell(0, &|_| false), f[2]), case(i)));
+                    }
+                }
+                "K" => lookups_ok += 1,
+                "L" => {
+                    lookups_bad += 1;
+                    let i: usize = f[1].parse().unwrap();
+                    let kind = f[2].parse::<usize>().ok().map(|k| SPELLINGS.get(k).copied().unwrap_or("compiler-type_name")).unwrap_or("typed");
+                    report.add(Violation::new(format!("C17/lookup/{}", kind), format!("type {}: {}", types[i].spell(0, &|_| false), f[3]), case(i)));
+                }
+                _ => {}
+            }
+        }
+    }
+    if recorded.len() != n {
+        vcommon::machinery_error("phase 1 did not report every type");
+    }
+    // distinct types must have distinct recorded names
+    let mut by_name: BTreeMap<&str, usize> = BTreeMap::new();
+    for (i, name) in &recorded {
+        if let Some(j) = by_name.insert(name.as_str(), *i) {
+            report.add(Violation::new("C17/name-collision", format!("types {} and {} are both recorded as {:?}", types[j].spell(0, &|_| false), types[*i].spell(0, &|_| false), name), case(*i)));
+        }
+    }
+    // ---- phase 2: the compiler decides type equality
+    let chunks = 16usize.min(n.max(1));
+    let verdicts = crate::parallel(chunks, |c| {
+        let idxs: Vec<usize> = (0..n).filter(|i| i % chunks == c).collect();
+        let mut src = String::from("#![allow(dead_code, unused)]\nextern crate alloc;\n");
+        let header_lines = 2;
+        for i in &idxs {
+            src.push_str(&format!("const _: fn({}) -> {} = |x| x;\n", types[*i].spell(0, &|_| false), recorded[i]));
+        }
+        let path = dir.join(format!("phase2_{}.rs", c));
+        std::fs::write(&path, src).unwrap();
+        let r = rustc(ext, &path, &["usertypes"], None);
+        let _ = std::fs::remove_file(&path);
+        let mut bad: Vec<(usize, String)> = vec![];
+        if !r.ok {
+            let fname = path.file_name().unwrap().to_string_lossy().to_string();
+            let lines: Vec<&str> = r.stderr.lines().collect();
+            let mut last_err = String::new();
+            for l in &lines {
+                if l.starts_with("error") {
+                    last_err = l.to_string();
+                }
+                if let Some(pos) = l.find(&format!("{}:", fname)) {
+                    let rest = &l[pos + fname.len() + 1..];
+                    if let Some(ln) = rest.split(':').next().and_then(|x| x.parse::<usize>().ok()) {
+                        if ln > header_lines && ln - header_lines - 1 < idxs.len() {
+                            let i = idxs[ln - header_lines - 1];
+                            if !bad.iter().any(|(j, _)| *j == i) {
+                                bad.push((i, last_err.clone()));
+                            }
+                        }
+                    }
+                }
+            }
+            if bad.is_empty() {
+                bad.push((usize::MAX, r.stderr.lines().take(5).collect::<Vec<_>>().join(" | ")));
+            }
+        }
+        bad
+    });
+    let mut denote_bad = 0u64;
+    for bad in verdicts {
+        for (i, msg) in bad {
+            if i == usize::MAX {
+                vcommon::machinery_error(&format!("phase-2 probe failed without a locatable error: {}", msg));
+            }
+            denote_bad += 1;
+            let kind = if msg.contains("mismatched types") { "name-denotes-another-type" } else { "name-does-not-compile" };
+            report.add(Violation::new(format!("C17/{}", kind), format!("type {} is recorded as {:?}: {}", types[i].spell(0, &|_| false), recorded[&i], msg), case(i)));
+        }
+    }
+    let mut seen = std::collections::BTreeSet::new();
+    report.violations.retain(|v| seen.insert(v.key.clone()));
+    if args.replay.is_some() {
+        let doc = vcommon::read_replay(args.replay.as_ref().unwrap());
+        let want = doc["key"].as_str().unwrap_or("").to_owned();
+        let hit: Vec<_> = report.violations.iter().filter(|v| v.key == want).collect();
+        for v in &hit {
+            println!("REPLAY-VIOLATION property=C17 key={} :: {}", v.key, v.what);
+        }
+        return if hit.is_empty() { println!("REPLAY-OK property=C17"); 0 } else { 1 };
+    }
+    let samples: Vec<_> = [7usize, n / 3, n / 2, n - 1].iter().filter(|i| **i < n).map(|i| json!({"type": types[*i].spell(0, &|_| false), "recorded_name": recorded[i], "spellings_looked_up": spellings(&types[*i])})).collect();
+    report
+        .cov("evaluations", n as u64 + lookups_ok + lookups_bad)
+        .cov("distinct_nontrivial", types.iter().filter(|t| t.depth() > 0).count() as u64)
+        .cov("rule", "every type of the grammar {12 bases} x {Box Vec Option Result<_,String> Result<u8,_> (_,) (_,u8) [_;3] Box<[_]> usertypes::Wrap} to unary depth 2, plus binary constructors {Result, tuple, usertypes::Pair} over three bases (thorough: inner depth 1, and unary depth 3 over four bases); per type: the recorded name must type-check as the identity's return type (rustc decides), and 8 spellings (short, qualified, two alternating mixtures, without spaces, two with extra spaces, the compiler's type_name) plus the typed lookup must find the registered entry; non-trivial = types with at least one constructor, all distinct")
+        .cov("samples", samples)
+        .cov("exhaustive", true)
+        .cov("types", n as u64)
+        .cov("lookups_ok", lookups_ok)
+        .cov("lookups_failed", lookups_bad)
+        .cov("names_rejected_by_compiler", denote_bad);
+    report.assume("interpretation: each standard type inside a name may be spelled short or fully qualified independently (mixed spellings are looked up too)");
+    report.assume("rustc decides type equality (phase 2, --emit=metadata); phase 1 runs the real truc resolvers");
+    report.finish()
+}
